@@ -58,6 +58,19 @@ type connState struct {
 	raddr  string
 	upErr  error
 	engCls int32
+
+	stopPhase string // "" | stop | shutdown
+	failed    int32  // the client gave up before its held callback could be reached
+	noClose   bool   // stop phase: no close callback although the engine has stopped (allowed: counted)
+	gOnce     sync.Once
+}
+
+// giveUp: the client could not even send its script; nobody else will open the gate
+func (cs *connState) giveUp() {
+	atomic.StoreInt32(&cs.failed, 1)
+	if cs.stopPhase == "" {
+		cs.gOnce.Do(func() { close(cs.gate) })
+	}
 }
 
 func newConnState(cell cellCfg, cid int, kind string) *connState {
@@ -129,6 +142,8 @@ type server struct {
 	byAdr sync.Map // client address -> *connState
 	pool  chan func()
 	quit  chan struct{}
+	// closed by the cell when Engine.Stop / Shutdown has returned (stop phase)
+	stopDone chan struct{}
 }
 
 func tagOf(data []byte) string {
@@ -263,7 +278,7 @@ func epollCfg(name string) (uint32, uint32, bool) {
 }
 
 func startServer(cell cellCfg) (*server, error) {
-	sv := &server{cell: cell}
+	sv := &server{cell: cell, stopDone: make(chan struct{})}
 	em, os1, async := epollCfg(cell.Epoll)
 	mux := http.NewServeMux()
 	mux.HandleFunc("/ws", sv.handleWS)
